@@ -19,7 +19,7 @@ pub fn def() -> PropDef {
                (incl. multi-byte), serialize_all; every enabled variant is formatted with the whole spec grid (fill in {none,*,é,0} x align in {none,<,^,>} x width 0..W x precision \
                none/0..P, plus the 0, + and # flags; width/precision as runtime arguments) and compared with the same grid applied to the reference name as a &str. P2 (placeholders): \
                named variants {x: u8, y: i32, z: &'static str} and tuple variants with 1..3 fields whose to_string is generated from a segment grammar (all arrangements with repetition \
-               of <= L placeholders x spec forms {f}, {f:>4}, {f:03}, {f:?}, {f:<5} x separators: none / text / escaped braces adjacent to the placeholder; tuple literals cover every \
+               of <= L placeholders x spec forms {f}, {f:>4}, {f:03}, {f:?}, {f:<5} x separators: none / text / escaped braces adjacent to the placeholder / escaped braces around a bare name next to it (`{{0}} = {0};`); tuple literals cover every \
                index); oracle: v.to_string() == format!(the same literal, fields bound by name / position), two payload assignments incl. extremes. non-trivial = every (variant, spec) \
                with width > len or precision < len, every placeholder literal; distinct per (program, variant, spec/payload)",
         trusted_base: &["rustc / core::fmt (`<str as Display>` and `format!` are the reference)", "vf-core R-name", "generated constructors"],
@@ -181,7 +181,7 @@ fn literals(names: &[&str], lmax: usize, cover_all: bool, forms_full: bool) -> V
             (0..FORMS.len()).map(|o| (0..arr.len()).map(|j| (o + j) % FORMS.len()).collect()).collect()
         };
         for fs in form_sets {
-            for sep in 0..3 {
+            for sep in 0..4 {
                 let mut l = String::new();
                 for (j, (&a, &f)) in arr.iter().zip(fs.iter()).enumerate() {
                     let ph = format!("{{{}{}}}", names[a], FORMS[f]);
@@ -193,10 +193,16 @@ fn literals(names: &[&str], lmax: usize, cover_all: bool, forms_full: bool) -> V
                             }
                             l.push_str(&ph);
                         }
-                        _ => {
+                        2 => {
                             l.push_str("{{");
                             l.push_str(&ph);
                             l.push_str("}}");
+                        }
+                        _ => {
+                            // escaped braces around a bare name / index: text, not a placeholder
+                            l.push_str(&format!("{{{{{}}}}} = ", names[a]));
+                            l.push_str(&ph);
+                            l.push(';');
                         }
                     }
                 }
